@@ -53,6 +53,7 @@ func TestVerifC33bConformance(t *testing.T) {
 		"VerifC33bWhileDown": VerifC33bWhileDown,
 		"VerifC33bTwice":     VerifC33bTwice,
 		"VerifC33bThrice":    VerifC33bThrice,
+		"VerifC33bLong":      VerifC33bLong,
 		"VerifC33bTwin":      VerifC33bTwin,
 	}
 	tmp := t.TempDir()
